@@ -14,31 +14,41 @@
 
 package auth
 
+import "sync"
+
 // AuthManager represent an authenticator manager.
 type AuthManager struct {
 	authenticators []Authenticator
+	mutex          *sync.RWMutex
 }
 
 // NewAuthManager returns a new authenticator manager.
 func NewAuthManager() *AuthManager {
 	manager := &AuthManager{
 		authenticators: make([]Authenticator, 0),
+		mutex:          &sync.RWMutex{},
 	}
 	return manager
 }
 
 // AddAuthenticator adds a new authenticator.
 func (mgr *AuthManager) AddAuthenticator(authenticator Authenticator) {
+	mgr.mutex.Lock()
+	defer mgr.mutex.Unlock()
 	mgr.authenticators = append(mgr.authenticators, authenticator)
 }
 
 // ClearAuthenticators clears all authenticators.
 func (mgr *AuthManager) ClearAuthenticators() {
+	mgr.mutex.Lock()
+	defer mgr.mutex.Unlock()
 	mgr.authenticators = make([]Authenticator, 0)
 }
 
 // Authenticate authenticates the connection with the startup message.
 func (mgr *AuthManager) Authenticate(conn Conn) (bool, error) {
+	mgr.mutex.RLock()
+	defer mgr.mutex.RUnlock()
 	if len(mgr.authenticators) == 0 {
 		return true, nil
 	}
@@ -53,6 +63,8 @@ func (mgr *AuthManager) Authenticate(conn Conn) (bool, error) {
 
 // HasClearTextPasswordAuthenticator returns true if the manager has the clear text password authenticator.
 func (mgr *AuthManager) HasClearTextPasswordAuthenticator(username string, password string) bool {
+	mgr.mutex.RLock()
+	defer mgr.mutex.RUnlock()
 	for _, authenticator := range mgr.authenticators {
 		clearTextAuthenticator, ok := authenticator.(*ClearTextPasswordAuthenticator)
 		if !ok {
